@@ -158,6 +158,7 @@ package pos
 //@   requires len(vv) <= MaxW
 //@   modifies nsort
 //@   ensures  fresh(result) && valid(result)
+//@   ensures  [content] forall(id idx.ValidatorID, has(result.values, id) == (has(vv, id) && vv[id] != 0)) && forall(id idx.ValidatorID, has(result.values, id) ==> result.values[id] == vv[id])
 //@
 //@ func newWeightCounter
 //@   requires valid(vv)
@@ -175,3 +176,28 @@ package pos
 //@   ensures  !old(s.already[s.validators.cache.indexes[v]]) ==> result && s.sum == old(s.sum) + s.validators.cache.weights[s.validators.cache.indexes[v]]
 //@   ensures  s.already[s.validators.cache.indexes[v]]
 //@   ensures  cinv(s)
+//@
+//@ // ---- RLP codec of a validator set (C12: "encoding then decoding yields the same set in the same order") ----
+//@ // EncodeRLP hands the canonical array (each (ID, weight) pair of the set once, in canonical order) to the RLP encoder;
+//@ // DecodeRLP rebuilds a valid set from a decoded array, and if that array lists distinct IDs with non-zero weights
+//@ // (as every encoded array does) the set holds exactly its pairs. With the RLP library's own round trip (assumed)
+//@ // and the canonical order being a function of the pairs alone (proved above), decoding an encoding gives the same
+//@ // set in the same order.
+//@ spec distinctIDs(arr []validator) bool = forall(i, 0, len(arr), forall(j, 0, len(arr), i != j ==> arr[i].ID != arr[j].ID))
+//@ spec nonzeroW(arr []validator) bool = forall(j, 0, len(arr), arr[j].Weight != 0)
+//@ func (*Validators).EncodeRLP
+//@   requires vv != nil
+//@   modifies nsort, gRlpEncodeN, gRlpEncodeVal
+//@   ensures  gRlpEncodeN == old(gRlpEncodeN) + 1 && typeis(gRlpEncodeVal, "validators") && pairsOf(unbox(gRlpEncodeVal, "validators"), vv.values) && canonical(unbox(gRlpEncodeVal, "validators"))
+//@ func (*Validators).DecodeRLP
+//@   maypanic
+//@   requires vv != nil && s != nil
+//@   modifies vv.values, vv.cache.indexes, vv.cache.ids, vv.cache.weights, vv.cache.totalWeight, nsort
+//@   at call rlp.Stream).Decode[1] modifies arr
+//@   ensures  [valid] result == nil ==> valid(vv)
+//@   ensures  [roundtrip] result == nil && distinctIDs(arr) && nonzeroW(arr) ==> forall(j, 0, len(arr), has(vv.values, arr[j].ID) && vv.values[arr[j].ID] == arr[j].Weight)
+//@   ensures  [only] result == nil ==> forall(id idx.ValidatorID, has(vv.values, id) ==> exists(j, 0, len(arr), arr[j].ID == id))
+//@   loop 1 modifies builder[*]
+//@   loop 1 invariant builder != nil && 0 <= _k && _k <= len(_range) && len(builder) <= _k
+//@   loop 1 invariant [only] forall(id idx.ValidatorID, has(builder, id) ==> exists(j, 0, _k, _range[j].ID == id))
+//@   loop 1 invariant [pairs] distinctIDs(_range) && nonzeroW(_range) ==> len(builder) == _k && forall(j, 0, _k, has(builder, _range[j].ID) && builder[_range[j].ID] == _range[j].Weight)
